@@ -196,6 +196,65 @@ func runC02(c *Ctx) {
 	// what is sent is a whole-entry prefix of that ascending order (rules of C13)
 	c13Encode(c, "C02.R4", "C02.R4")
 	c13Decode(c, "C02.R4")
+	c02R5(c)
+	// the owner side of compaction and deletion markers (rules of C17)
+	c17All(c, g)
+}
+
+// c02R5: a decoder that fills only the fields present on the wire must not be
+// pointed at a variable that already holds data. The wire structs carry no
+// `omitempty` today; Gossip.join decodes the peer's delta into the variable
+// that still holds its own - harmless exactly as long as every field is
+// always encoded.
+func c02R5(c *Ctx) {
+	p := c.P
+	c.floor("C02.R5", 1)
+	omit := ""
+	for _, tn := range []string{"Entry", "digestEntry", "deltaEntry", "digestHeader", "deltaHeader", "joinHeader", "leaveHeader"} {
+		n := p.NamedType(gsPkg, tn)
+		if n == nil {
+			c.fail("C02.R5", "anchor/"+tn, token.NoPos, "wire struct not found")
+			continue
+		}
+		st, ok := n.Underlying().(*types.Struct)
+		if !ok {
+			continue
+		}
+		for i := 0; i < st.NumFields(); i++ {
+			if strings.Contains(st.Tag(i), "omitempty") {
+				omit = tn + "." + st.Field(i).Name()
+			}
+		}
+	}
+	// decode targets that were assigned before
+	reused := ""
+	for _, fn := range p.ModFuncs {
+		if isTestFile(p.Fset, fn.Pos()) || !strings.Contains(fn.String(), modPath+"/pkg/gossip") {
+			continue
+		}
+		allInstrs(fn, func(i ssa.Instruction) {
+			cl, ok := i.(*ssa.Call)
+			if !ok || !strings.HasSuffix(commonName(&cl.Call), "pkg/gossip.decoder).Decode") {
+				return
+			}
+			mi, ok := cl.Call.Args[1].(*ssa.MakeInterface)
+			if !ok {
+				return
+			}
+			al, ok := mi.X.(*ssa.Alloc)
+			if !ok {
+				return
+			}
+			for _, r := range *al.Referrers() {
+				if st, ok := r.(*ssa.Store); ok && st.Addr == ssa.Value(al) && canReach(st, cl, nil) {
+					reused = fnName(fn) + " at " + p.pos(cl.Pos())
+				}
+			}
+		})
+	}
+	c.check(omit == "" || reused == "", "C02.R5", "wire-structs/decode-into-fresh-or-full-encoding", token.NoPos,
+		"every wire field is always encoded (no omitempty), so decoding into a used variable cannot leave stale fields",
+		"wire field "+omit+" is omitted when empty while "+reused+" decodes into a variable that already holds data: an empty value from the peer keeps the stale local value (fabricated state under the owner's real version)")
 }
 
 // gsR1: own state written only locally; everything else excludes the local node.
@@ -395,7 +454,7 @@ func metaRoot(base ssa.Value, g *gossipAnchors) ssa.Value {
 }
 
 func c02R2(c *Ctx, g *gossipAnchors, rule string) {
-	c.floor(rule, 7)
+	c.floor(rule, 8)
 	all := g.allWrites()
 	for _, fn := range sortedFuncs(all) {
 		fs := computeFacts(fn)
@@ -459,6 +518,17 @@ func c02R2(c *Ctx, g *gossipAnchors, rule string) {
 					others++
 				}
 			}
+			// the advanced version is backed by the stored entry: the version store is not
+			// reachable without storing that very entry
+			var stores []ssa.Instruction
+			for _, w2 := range all[fn] {
+				if w2.kind == "entries-update" && strip(w2.root) == strip(w.root) && strip(entryVarOf(w2.val)) == strip(src) {
+					stores = append(stores, w2.instr)
+				}
+			}
+			backed := len(stores) > 0 && !blockReachesAvoiding(fn.Blocks[0], st, stores)
+			c.check(backed, rule, key+"/backed-by-entry", st.Pos(), "the version is advanced only together with storing the entry that carries it",
+				"the applied version of a node can advance without the entry of that version being stored (e.g. an unseen tombstone is skipped): the observer claims to have seen the owner's state up to v while a key written at or below v is missing, and relays that claim")
 			c.check(guard && others == 0, rule, key, st.Pos(), "Version = e.Version only under e.Version > Version (monotone)",
 				"a view's version can move backwards or sideways: Version = e.Version is not guarded by e.Version > Version of the same node; facts "+factStrings(facts))
 		}
@@ -1064,7 +1134,10 @@ func c11R2R3(c *Ctx, g *gossipAnchors) {
 						}
 					}
 					for _, f := range facts {
-						if cmpFact(f, token.EQL, func(a ssa.Value) bool { b, ok := loadedField(a, g.eKey); return ok && (ev == nil || strip(b) == strip(ev)) },
+						if cmpFact(f, token.EQL, func(a ssa.Value) bool {
+							b, ok := loadedField(a, g.eKey)
+							return ok && (ev == nil || strip(b) == strip(ev))
+						},
 							func(a ssa.Value) bool { s, ok := constString(a); return ok && s == g.leftKey }) {
 							isLeft = true
 						}
